@@ -66,7 +66,8 @@ class ExportConfigFortran(ExportConfig):
             else:
                 if len(shape)>1:
                     dims = ",".join(str(s) for s in shape)
-                    lines.append(f"  {dtype}, dimension ({dims}), parameter :: {name} = reshape([{value}],[{dims}],order=[2,1])")
+                    order = ",".join(str(d) for d in range(len(shape),0,-1))   # the list is written row-major
+                    lines.append(f"  {dtype}, dimension ({dims}), parameter :: {name} = reshape([{value}],[{dims}],order=[{order}])")
                 else:
                     shape = ",".join(str(s) for s in shape)
                     lines.append(f"  {dtype}, dimension ({shape}) :: {name} = [{value}];")
